@@ -18,7 +18,7 @@ EXPLANATION = "Theorems in Properties/C04.v + differential correspondence of the
 
 
 def generate(ctx):
-    n = 1500 if ctx.tier == "quick" else 12000
+    n = 1500 if ctx.tier == "quick" else 60000
     cases = []
     for i in range(n):
         names = ctx.rng.choice(["plain", "plain", "int", "adv"])
